@@ -311,6 +311,10 @@ func tailHasWellFormedEnd(form string, body []byte) bool {
 }
 
 func hangViolation(res *CheckResult, out *Outcome) bool {
+	if out.Hang && out.HangWhy != "" {
+		res.violate("hang", "hang", "the exchange wedged: %s", out.HangWhy)
+		return true
+	}
 	if out.Hang {
 		res.violate("hang", "hang", "ServeHTTP did not return within %s although both peers had finished", watchdog)
 		return true
